@@ -196,6 +196,8 @@ class AccessMixin:
         ctx = self.ctx
         it = ctx.term(i, INT)
         lt = ctx.term(ln, INT)
+        if ctx.spec and z3.is_const(it) and it.decl().kind() == z3.Z3_OP_UNINTERPRETED:
+            return it       # a specification variable used as index denotes a position, never a negative offset
         j = z3.If(it < 0, it + lt, it)
         ctx.may_raise(z3.Or(j < 0, j >= lt), exc, label)
         return z3.simplify(j)
